@@ -6,6 +6,9 @@ Tie D: random result data -> the *model* renders the .res text (both header layo
 the harness writes it with a hand-written .msh into ctx.tmp -> real femio reads single steps
 (`read_files`), the directory (`read_directory`, latest step) and the time series; the id-keyed tables are compared
 with (a) the generating data, (b) the model reader `c02.parse` / `c02.readdir` run on the same text.
+The model side is character level: `c02.render` returns the characters of the whole file (`fileText`), `c02.parse` /
+`c02.readdir` take characters (`readResText` / `lexFile`: lines between newlines, Python-whitespace lexer) - the
+functions of `C02_parse_render_chars`, whose Boolean hypotheses the driver evaluates on every case.
 Oracle: the property on the real API only (value-by-id equality, series = stack of the single-step readings in
 ascending step order, no series = largest step).
 """
@@ -24,10 +27,13 @@ LEAN_MODULES = ['Femio.Props.C02']
 THEOREMS = ['C02_parse_render', 'C02_split_point', 'C02_split_point_nodal_only', 'C02_columns', 'C02_rebinding',
             'C02_rebinding_ids', 'C02_steps', 'C02_steps_latest', 'C02_step_of_name', 'C02_timeseries_is_stack',
             'C02_stack_spec', 'C02_timeseries_by_id', 'C02_latest_is_single', 'C02_header_constants',
-            'C02_singleton_series_counterexample_upstream']
+            'C02_singleton_series_counterexample_upstream', 'C02_lex_print_line', 'C02_parse_render_lines',
+            'C02_parse_render_chars', 'C02_single_chars']
 PARTIAL = [
-    'C02_parse_render: token level (lines are lists of typed tokens); the character-level lexer / printer of the driver '
-    'is tied by the correspondence only',
+    'C02_parse_render_chars: character level for one result file (printer, newline / whitespace lexer, token classes); '
+    'line splitting models StringSeries.read_file as "split at newlines, skip empty lines" (pandas read_csv quoting / '
+    'carriage returns not modelled); the step-selection / time-series theorems stay on lexed token files (they are '
+    'parametric in the files\' token lines, to which the character-level theorem reduces each file)',
     'C02_timeseries_by_id: the id-keyed form needs every step to list the entities in the same order (the real code '
     'stacks positionally under the ids of the first step); stated as an explicit hypothesis',
 ]
@@ -181,8 +187,13 @@ def enc_sec(vars_, ids, rows):
     return ' '.join(t)
 
 
-def enc_text(lines):
-    return C.enc_list(lines, C.esc)
+def as_text(t):
+    """the characters of a result file (older replay files carry a list of lines)"""
+    return t if isinstance(t, str) else '\n'.join(t) + '\n'
+
+
+def enc_text(text):
+    return C.esc(as_text(text))
 
 
 def render_line(case, step):
@@ -200,10 +211,14 @@ def render_line(case, step):
 
 
 def dec_text(rep):
+    """-> (Boolean hypotheses of C02_parse_render_chars hold on the input, characters of the file)"""
     t = C.Toks(rep)
     if t.tok() != 'ok':
         raise RuntimeError('driver: ' + rep[:200])
-    return t.lst(lambda: C.unesc(t.tok()))
+    hyp = t.nat()
+    text = C.unesc(t.tok())
+    assert t.done()
+    return bool(hyp), text
 
 
 def dec_sec(t):
@@ -299,8 +314,8 @@ def write_files(ctx, case, texts):
     d.mkdir()
     m = G.from_json(case['mesh'])
     (d / 'm.msh').write_text(msh_text(m))
-    for s, lines in texts.items():
-        (d / f'm.res.0.{s}').write_text('\n'.join(lines) + '\n')
+    for s, text in texts.items():
+        (d / f'm.res.0.{s}').write_text(as_text(text))
     return d
 
 
@@ -408,9 +423,15 @@ def run_case(ctx, case, cfg_mismatch, stream='main'):
     steps = sorted(case['steps'])
     # 1. the model renders the files
     if ctx.driver is not None:
-        texts = {s: dec_text(r) for s, r in zip(case['steps'], ctx.driver.ask_many(
+        rendered = {s: dec_text(r) for s, r in zip(case['steps'], ctx.driver.ask_many(
             [render_line(case, s) for s in case['steps']]))}
+        texts = {s: t for s, (_, t) in rendered.items()}
         case['files'] = {str(s): t for s, t in texts.items()}
+        hyp = all(h for h, _ in rendered.values())
+        ctx.count('hypotheses of C02_parse_render_chars hold (fileOKB, hdrOKB): ' + ('yes' if hyp else 'NO'))
+        if not hyp and main:
+            ctx.disagree('generated case violates the Boolean hypotheses of C02_parse_render_chars', brief(case),
+                         'in-quantifier input', 'fileOKB && hdrOKB = false')
     else:
         texts = {int(s): t for s, t in case['files'].items()} if 'files' in case else None
         if texts is None:
